@@ -1,2 +1,8 @@
 import TlxVerif.Props.C01
-#print axioms TlxVerif.C01.insertAt_length
+#print axioms TlxVerif.C01.find_lower_binary_eq_linear
+#print axioms TlxVerif.C01.find_upper_binary_eq_linear
+#print axioms TlxVerif.C01.insert_refines
+#print axioms TlxVerif.C01.descent_reaches_bound
+#print axioms TlxVerif.C01.insert_history_refines_partial
+#print axioms TlxVerif.C01.insertDescend_flatten
+#print axioms TlxVerif.C01.insertDescend_sep
